@@ -264,6 +264,37 @@ def w_type(case):
                 else:
                     bump(res, 'opus-ok')
             res['nt'].append('opus')
+        elif case.get('watford'):
+            n1, n2 = case['watford']
+            e1 = [disc.Entry(b'A%02d' % i, b'$' if i % 3 else b'W', False, 0, 0, 10 + i, 4 + i) for i in range(n1)]
+            e2 = [disc.Entry(b'B%02d' % i, b'$' if i % 2 else b'X', False, 0, 0, 50 + i, 40 + i) for i in range(n2)]
+            e1.reverse()
+            e2.reverse()
+            img = disc.acorn_surface(disc.Volume(e1, b'WATF', 1, 0, 400, e2), 400, b'w', watford=True)
+            dfsrun.write(d, 'img.ssd', img)
+            for e in e1 + e2:
+                nm, dd = e.name.decode(), e.dir.decode()
+                half = 'first' if e in e1 else 'second'
+                for cmd in (['type', '--binary'], ['list'], ['dump']):
+                    for sp in ('%s.%s' % (dd, nm), ':0.%s.%s' % (dd.lower(), nm.lower())):
+                        r = dfsrun.dfs('plain', ['--file', 'img.ssd', '--dir', 'Q'] + cmd + [sp], d)
+                        res['n'] += 1
+                        if r.status() != 'exit0' or (cmd[0] == 'type' and r.out != disc.file_body(b'w', e)):
+                            bump(res, 'not-found-but-exists')
+                            res['viol'].append(('C15:type:watford:existing-file-not-found:%s-catalogue:%s' % (half, cmd[0]),
+                                                'Watford disc with %d+%d entries: %s %s: %s %r' % (n1, n2, cmd[0], sp, r.status(), r.err[:80])))
+                        else:
+                            bump(res, 'found')
+                r = dfsrun.dfs('plain', ['--file', 'img.ssd', 'info', '%s.%s' % (dd, nm)], d)
+                res['n'] += 1
+                rows = render.parse_info(r.out) if r.status() == 'exit0' else []
+                if [(x['dir'], x['name']) for x in rows] != [(e.dir, e.name)]:
+                    res['viol'].append(('C15:info:watford:%s-catalogue' % half, 'info %s.%s on a %d+%d disc: %r' % (dd, nm, n1, n2, rows)))
+            for sp in ('$.NOSUCH', 'B99', 'W.B01'):
+                r = dfsrun.dfs('plain', ['--file', 'img.ssd', 'type', sp], d)
+                res['n'] += 1
+                check_type(res, r, sp, False, [], 'watford')
+            res['nt'].append(('watford', n1, n2))
         else:
             img, ents = make_cat_image()
             dfsrun.write(d, 'img.ssd', img)
@@ -365,6 +396,11 @@ def fam_type(tier):
     for lo in range(0, len(CAT_NAMES), 2):
         yield {'w': 'type', 'lo': lo, 'hi': lo + 2}
     yield {'w': 'type', 'opus': True}
+    # Watford: every fill of the two catalogue halves from a small set (lookups must search both halves whatever their fill)
+    for n1 in (0, 1, 5, 30, 31):
+        for n2 in (0, 1, 17, 31):
+            if n1 + n2:
+                yield {'w': 'type', 'watford': [n1, n2]}
 
 
 FAMILIES = [('T-type-lookups', fam_type), ('I-info-cli', fam_info), ('M-matcher-matrix', fam_matrix)]
